@@ -1301,6 +1301,7 @@ fn validate_str(r: Result<(), TxError>) -> String {
 
 fn builder(out: &mut Out, rng: &mut Rng, thorough: bool) {
 	global::set_local_chain_type(ChainTypes::AutomatedTesting);
+	global::set_local_nrd_enabled(true);
 	let n_cases = if thorough { 500 } else { 120 };
 	let mut stat: std::collections::BTreeMap<String, u64> = Default::default();
 	let mut proofs = 0u64;
@@ -1416,11 +1417,18 @@ fn builder(out: &mut Out, rng: &mut Rng, thorough: bool) {
 				fee: FeeFields::new(0, fee).unwrap(),
 				lock_height: rng.below(1000),
 			},
+			// a no-recent-duplicate kernel (the feature flag is switched on for this thread): its
+			// signature message covers the relative height
+			1 if fee > 0 => KernelFeatures::NoRecentDuplicate {
+				fee: FeeFields::new(0, fee).unwrap(),
+				relative_height: grin_core::core::NRDRelativeHeight::try_from(rng.range(1, 10080) as u16).unwrap(),
+			},
 			_ => KernelFeatures::Plain {
 				fee: if fee == 0 { FeeFields::zero() } else { FeeFields::new(0, fee).unwrap() },
 			},
 		};
 		let excess = gen_scalar(rng, false, false);
+		*stat.entry(format!("kernel={}", match features { KernelFeatures::Plain { .. } => "plain", KernelFeatures::HeightLocked { .. } => "height-locked", KernelFeatures::NoRecentDuplicate { .. } => "nrd", _ => "other" })).or_insert(0) += 1;
 		*stat.entry(format!("class={}", class)).or_insert(0) += 1;
 		*stat.entry(format!("inputs={}", ins.len())).or_insert(0) += 1;
 		*stat.entry(format!("outputs={}", outs.len())).or_insert(0) += 1;
@@ -1603,6 +1611,33 @@ fn builder(out: &mut Out, rng: &mut Rng, thorough: bool) {
 			&format!("keys coinbase {}", fees),
 			&format!("{} {} {} {} {}", value, proof_ok, sig_ok, sum_ok, blk),
 		);
+		// the same call once more: commitment, range proof (its nonces are functions of the keychain
+		// and the commitment) and excess are the same; the kernel signature is the same exactly in
+		// test_mode (fixed nonce), a fresh nonce otherwise
+		if case % 3 == 0 {
+			let tm = case % 2 == 0;
+			let again = if legacy {
+				reward::output(&keychain, &LegacyProofBuilder::new(&keychain), &id, fees, tm)
+			} else {
+				reward::output(&keychain, &ProofBuilder::new(&keychain), &id, fees, tm)
+			};
+			proofs += 1;
+			let s = match again {
+				Ok((o2, k2)) => format!(
+					"{} {} {} {}",
+					o2.commitment() == o.commitment() && o2.features() == o.features(),
+					o2.proof_bytes() == o.proof_bytes(),
+					k2.excess == k.excess && k2.features == k.features,
+					k2.excess_sig == k.excess_sig
+				),
+				Err(_) => "err".to_string(),
+			};
+			let want = format!("true true true {}", tm);
+			if s != want {
+				out.raw(&format!("#ORACLE-FAIL C20 reward::output called twice with the same arguments (test_mode={}) differs: id={} fees={} got [{}] want [{}]", tm, hex(&id.to_bytes()), fees, s, want));
+			}
+			out.line(&format!("keys cbdet {} {}", fees, tm), &s);
+		}
 	}
 	if dup_probe > 0 {
 		out.raw(&format!("#KNOWN-PROBE C20 duplicate-element: build::input/output handed the same (value, key id) twice: the body keeps the element once (with_input/with_output drop duplicates) but the BlindSum counts its key twice, so the built transaction fails validate with KernelSumMismatch although the values balance as a multiset ({} cases this run)", dup_probe));
@@ -2407,6 +2442,30 @@ fn sigs(out: &mut Out, rng: &mut Rng, thorough: bool) {
 					}
 					Err(e) => sig_line(out, &mut stats, "ok-single", n, Err(format!("{:?}", e))),
 				}
+				// the optional arguments: no pubkey_sum at all (signer and verifier must agree on it),
+				// a nonce from create_secnonce
+				match aggsig::sign_single(secp, &msg, &sk, None, None) {
+					Ok(sig) => {
+						sig_line(out, &mut stats, "ok-single-no-sum", n, Ok(aggsig::verify_single(secp, &sig, &msg, None, &pk, None, false)));
+						sig_line(out, &mut stats, "bad-single-sum-only-at-verify", n, Ok(aggsig::verify_single(secp, &sig, &msg, None, &pk, Some(&pk), false)));
+					}
+					Err(e) => sig_line(out, &mut stats, "ok-single-no-sum", n, Err(format!("{:?}", e))),
+				}
+				match (aggsig::create_secnonce(secp), aggsig::create_secnonce(secp)) {
+					(Ok(n1), Ok(n2)) => {
+						sig_line(out, &mut stats, "ok-secnonce-fresh", n, Ok(n1 != n2 && SecretKey::from_slice(secp, &n1.0).is_ok() && SecretKey::from_slice(secp, &n2.0).is_ok()));
+						match aggsig::sign_single(secp, &msg, &sk, Some(&n1), Some(&pk)) {
+							Ok(sig) => {
+								sig_line(out, &mut stats, "ok-secnonce-signs", n, Ok(aggsig::verify_single(secp, &sig, &msg, None, &pk, Some(&pk), false)));
+								// a supplied nonce makes the signature a function of (msg, key, nonce)
+								sig_line(out, &mut stats, "ok-secnonce-deterministic", n, aggsig::sign_single(secp, &msg, &sk, Some(&n1), Some(&pk)).map(|s2| s2 == sig).map_err(|e| format!("{:?}", e)));
+								sig_line(out, &mut stats, "bad-secnonce-other-nonce-same-sig", n, aggsig::sign_single(secp, &msg, &sk, Some(&n2), Some(&pk)).map(|s2| s2 == sig).map_err(|e| format!("{:?}", e)));
+							}
+							Err(e) => sig_line(out, &mut stats, "ok-secnonce-signs", n, Err(format!("{:?}", e))),
+						}
+					}
+					(a, b) => sig_line(out, &mut stats, "ok-secnonce-fresh", n, Err(format!("{:?} {:?}", a.err(), b.err()))),
+				}
 				// sign_with_blinding (the transaction builder's call) and sign_from_key_id (reward::output's)
 				let bf = BlindingFactor::from_secret_key(sk.clone());
 				let excess = secp.commit(0, sk.clone()).unwrap();
@@ -2430,12 +2489,36 @@ fn sigs(out: &mut Out, rng: &mut Rng, thorough: bool) {
 					}
 					Err(e) => sig_line(out, &mut stats, "ok-keyid-from-commit", n, Err(format!("{:?}", e))),
 				}
+				// reward::output's test_mode path: the fixed nonce [1; 32] -> the same signature twice;
+				// and the call without a key sum (verified without one)
+				let test_nonce = SecretKey::from_slice(secp, &[1; 32]).unwrap();
+				match (
+					aggsig::sign_from_key_id(secp, &kc, &msg, amount, &id, Some(&test_nonce), Some(&dpk)),
+					aggsig::sign_from_key_id(secp, &kc, &msg, amount, &id, Some(&test_nonce), Some(&dpk)),
+				) {
+					(Ok(s1), Ok(s2)) => {
+						sig_line(out, &mut stats, "ok-keyid-test-nonce-deterministic", n, Ok(s1 == s2));
+						sig_line(out, &mut stats, "ok-keyid-test-nonce-from-commit", n, Ok(aggsig::verify_single_from_commit(secp, &s1, &msg, &dcommit).is_ok()));
+					}
+					(a, b) => sig_line(out, &mut stats, "ok-keyid-test-nonce-deterministic", n, Err(format!("{:?} {:?}", a.err(), b.err()))),
+				}
+				match aggsig::sign_from_key_id(secp, &kc, &msg, amount, &id, None, None) {
+					Ok(sig) => {
+						sig_line(out, &mut stats, "ok-keyid-no-sum", n, Ok(aggsig::verify_single(secp, &sig, &msg, None, &dpk, None, false)));
+						sig_line(out, &mut stats, "bad-keyid-no-sum-from-commit", n, Ok(aggsig::verify_single_from_commit(secp, &sig, &msg, &dcommit).is_ok()));
+					}
+					Err(e) => sig_line(out, &mut stats, "ok-keyid-no-sum", n, Err(format!("{:?}", e))),
+				}
 			}
 			// ---- aggsig, 2..4 parties
 			if n % 2 == 0 {
 				let parties = rng.range(2, 4) as usize;
 				let sks: Vec<SecretKey> = (0..parties).map(|_| sig_scalar(rng, secp)).collect();
-				let nonces: Vec<SecretKey> = (0..parties).map(|_| sig_scalar(rng, secp)).collect();
+				// every second multi-party case draws the nonces with aggsig::create_secnonce (public
+				// nonce with a quadratic-residue y: what subtract_signature is specified for), the others
+				// are arbitrary scalars
+				let api_nonces = n % 4 == 0;
+				let nonces: Vec<SecretKey> = (0..parties).map(|_| if api_nonces { aggsig::create_secnonce(secp).unwrap() } else { sig_scalar(rng, secp) }).collect();
 				let pks: Vec<PublicKey> = sks.iter().map(|k| PublicKey::from_secret_key(secp, k).unwrap()).collect();
 				let pns: Vec<PublicKey> = nonces.iter().map(|k| PublicKey::from_secret_key(secp, k).unwrap()).collect();
 				let pk_sum = PublicKey::from_combination(secp, pks.iter().collect()).unwrap();
@@ -2468,6 +2551,37 @@ fn sigs(out: &mut Out, rng: &mut Rng, thorough: bool) {
 							// one partial signature left out
 							if let Ok(short) = aggsig::add_signatures(secp, parts[1..].iter().collect(), &pn_sum) {
 								sig_line(out, &mut stats, "bad-completed-missing-partial", n, Ok(aggsig::verify_completed_sig(secp, &short, &pk_sum, Some(&pk_sum), &msg).is_ok()));
+							}
+							// subtract_signature: completed - partial[0] is the sum of the other partial
+							// signatures (s values subtract mod n, the public nonce is the difference of
+							// the nonces; the library may hand back two candidates because a signature
+							// stores only the x coordinate of its nonce)
+							match aggsig::subtract_signature(secp, &f, &parts[0]) {
+								Ok((c1, c2)) => {
+									let cands: Vec<secp::Signature> = std::iter::once(c1).chain(c2.into_iter()).collect();
+									let rest_pk = if parties == 2 { pks[1].clone() } else { PublicKey::from_combination(secp, pks[1..].iter().collect()).unwrap() };
+									stats.entry(format!("subtract candidates={} parties={} nonces={}", cands.len(), parties, if api_nonces { "create_secnonce" } else { "arbitrary" })).or_insert((0, 0)).0 += 1;
+									let s_part = |s: &secp::Signature| -> Vec<u8> { s.to_raw_data()[32..].to_vec() };
+									// the s half is fixed by the arithmetic: s(completed) - s(partial 0) = Σ s(others)
+									let want_s = aggsig::add_signatures(secp, parts[1..].iter().collect(), &pn_sum).map(|x| s_part(&x));
+									sig_line(out, &mut stats, "ok-subtract-s-is-rest-sum", n, want_s.map(|w| cands.iter().all(|c| s_part(c) == w)).map_err(|e| format!("{:?}", e)));
+									if parties == 2 && api_nonces {
+										sig_line(out, &mut stats, "ok-subtract-gives-other-partial", n, Ok(cands.iter().any(|c| *c == parts[1])));
+										sig_line(out, &mut stats, "ok-subtract-verifies-as-partial", n, Ok(cands.iter().any(|c| aggsig::verify_partial_sig(secp, c, &pn_sum, &rest_pk, Some(&pk_sum), &msg).is_ok())));
+										sig_line(out, &mut stats, "bad-subtract-other-signer", n, Ok(cands.iter().any(|c| aggsig::verify_partial_sig(secp, c, &pn_sum, &pks[0], Some(&pk_sum), &msg).is_ok())));
+									}
+									// adding the subtracted partial back restores the completed signature
+									let back: Vec<bool> = cands.iter().map(|c| aggsig::add_signatures(secp, vec![c, &parts[0]], &pn_sum).map(|x| x == f).unwrap_or(false)).collect();
+									sig_line(out, &mut stats, "ok-subtract-then-add-restores", n, Ok(back.iter().any(|b| *b)));
+								}
+								// with nonces of the API the subtraction never fails; with arbitrary nonces (a
+								// public nonce whose y is not a quadratic residue) the library may refuse
+								// (two parties: the remainder's nonce is the other party's own nonce, a
+								// quadratic-residue point; with three or more parties the remaining nonce SUM need
+								// not have a quadratic-residue y in either sign and the library refuses about a
+								// quarter of the honest signatures - recorded as an observation, STAT only)
+								Err(e) if api_nonces && parties == 2 => sig_line(out, &mut stats, "ok-subtract-s-is-rest-sum", n, Err(format!("{:?}", e))),
+								Err(_) => stats.entry(format!("subtract refused (SigSubtractionFailure) parties={} nonces={}", parties, if api_nonces { "create_secnonce" } else { "arbitrary" })).or_insert((0, 0)).0 += 1,
 							}
 						}
 						(a, b) => sig_line(out, &mut stats, "ok-completed", n, Err(format!("{:?} {:?}", a.err(), b.err()))),
@@ -2518,7 +2632,8 @@ enum XE {
 
 fn exchange(out: &mut Out, rng: &mut Rng, thorough: bool) {
 	global::set_local_chain_type(ChainTypes::AutomatedTesting);
-	let n_cases = if thorough { 200 } else { 27 };
+	// (measured: ~0.1 s per built order; 80 thorough cases are about 2400 orders, 6 to 7 minutes)
+	let n_cases = if thorough { 80 } else { 27 };
 	let sw = SwitchCommitmentType::Regular;
 	let mut stat: std::collections::BTreeMap<String, u64> = Default::default();
 	let mut perms_run = 0u64;
@@ -2546,6 +2661,10 @@ fn exchange(out: &mut Out, rng: &mut Rng, thorough: bool) {
 		};
 		// ---- party A: inputs (and sometimes change) -> partial_transaction -> (tx0, blind0)
 		let class = match case % 9 {
+			// an additional with_excess that must not change anything: the zero factor (handed to
+			// secp.blind_sum as ZERO_KEY) and 32 bytes that are no scalar (silently dropped)
+			4 => "zero-excess",
+			5 => "invalid-excess",
 			6 => "forgot-excess",
 			7 => "extra-excess",
 			8 => "two-initial",
@@ -2606,6 +2725,14 @@ fn exchange(out: &mut Out, rng: &mut Rng, thorough: bool) {
 		}
 		if class == "extra-excess" {
 			elems.push(XE::X(gen_scalar(rng, false, false)));
+		}
+		if class == "zero-excess" {
+			elems.push(XE::X([0u8; 32]));
+		}
+		if class == "invalid-excess" {
+			let mut b = [0xffu8; 32];
+			b[31] = rng.next() as u8;
+			elems.push(XE::X(b));
 		}
 		if class == "two-initial" {
 			elems.push(XE::T(Transaction::empty(), "T".to_string()));
@@ -2707,7 +2834,7 @@ fn exchange(out: &mut Out, rng: &mut Rng, thorough: bool) {
 					*stat.entry(format!("{} {}: validate={}", class, if well_ordered { "elements-after-initial_tx" } else { "elements-before-initial_tx" }, v)).or_insert(0) += 1;
 					if well_ordered {
 						good_bodies.insert(format!("{} {}", bi, bo));
-						if class == "honest" && v != "ok" {
+						if (class == "honest" || class == "zero-excess" || class == "invalid-excess") && v != "ok" {
 							out.raw(&format!("#ORACLE-FAIL C20 exchange: the transaction built from initial_tx + with_excess(blind sum) + own elements does not validate ({}) in the order {} (fee {})", v, steps_s, fee));
 						}
 					}
@@ -2734,6 +2861,67 @@ fn exchange(out: &mut Out, rng: &mut Rng, thorough: bool) {
 				out.line(&format!("keys xpartial {}", steps_s), &s);
 			}
 		}
+		// partial_transaction on a NON-EMPTY base transaction: the base is where the fold starts, the
+		// elements (everything but the first initial_tx) are handed over in a few orders; an
+		// initial_tx among them (class two-initial) replaces the base as well
+		{
+			let rest: Vec<&XE> = elems[1..].iter().collect();
+			let n_orders = if thorough { 4 } else { 2 };
+			let mut base_sums: std::collections::BTreeSet<String> = Default::default();
+			for oi in 0..n_orders {
+				let mut p: Vec<usize> = (0..rest.len()).collect();
+				if oi > 0 {
+					shuffle(rng, &mut p);
+				}
+				let order: Vec<&XE> = p.iter().map(|i| rest[*i]).collect();
+				let steps_s = format!(
+					"[{}]",
+					order
+						.iter()
+						.map(|e| match e {
+							XE::I(v, id) => tok('i', *v, id),
+							XE::C(v, id) => tok('c', *v, id),
+							XE::O(v, id) => tok('o', *v, id),
+							XE::X(b) => format!("x:{}", hex(b)),
+							XE::T(_, t) => t.clone(),
+						})
+						.collect::<Vec<_>>()
+						.join(",")
+				);
+				macro_rules! mkb {
+					($b:ident) => {
+						order
+							.iter()
+							.map(|e| match e {
+								XE::I(v, id) => build::input(*v, id.clone()),
+								XE::C(v, id) => build::coinbase_input(*v, id.clone()),
+								XE::O(v, id) => build::output(*v, id.clone()),
+								XE::X(b) => build::with_excess(BlindingFactor::from_slice(b)),
+								XE::T(t, _) => build::initial_tx(t.clone()),
+							})
+							.collect::<Vec<Box<build::Append<ExtKeychain, _>>>>()
+					};
+				}
+				let r = with_builder!(b, {
+					let el = mkb!(b);
+					catch(AssertUnwindSafe(|| build::partial_transaction(tx0.clone(), &el, &keychain, &b)))
+				});
+				let s = match r {
+					Ok(Ok((tx, sum))) => {
+						base_sums.insert(hex(sum.as_ref()));
+						let (bi, bo) = body_str(&tx);
+						format!("{} {} {}", hex(sum.as_ref()), bi, bo)
+					}
+					Ok(Err(_)) => "err".to_string(),
+					Err(_) => "panic".to_string(),
+				};
+				*stat.entry(format!("partial on a base: {}", if s == "err" || s == "panic" { s.as_str() } else { "ok" })).or_insert(0) += 1;
+				out.line(&format!("keys xpartialb {} {}", t_tok, steps_s), &s);
+			}
+			if base_sums.len() > 1 {
+				out.raw(&format!("#ORACLE-FAIL C20 exchange: the blinding sum partial_transaction returns on a non-empty base depends on the order of the element list ({} different sums), case {}", base_sums.len(), case));
+			}
+		}
 		// the sums do not depend on the order of the elements
 		if offsets.len() > 1 {
 			out.raw(&format!("#ORACLE-FAIL C20 exchange: the offset of the built transaction depends on the order of the element list: {} different offsets over {} permutations of [{}] (fee {}, excess {})", offsets.len(), perms.len(), elems.iter().map(|e| match e { XE::I(v, id) => tok('i', *v, id), XE::C(v, id) => tok('c', *v, id), XE::O(v, id) => tok('o', *v, id), XE::X(b) => format!("x:{}", hex(b)), XE::T(_, t) => t.clone() }).collect::<Vec<_>>().join(","), fee, hex(&excess)));
@@ -2746,6 +2934,233 @@ fn exchange(out: &mut Out, rng: &mut Rng, thorough: bool) {
 		}
 	}
 	out.raw(&format!("#STAT exchange: cases={} permutations run={} distribution={:?}", n_cases, perms_run, stat));
+}
+
+// ---------------------------------------------------------------------------------------------
+// nonces: the rewind / private nonces of the three proof builders, byte for byte; Identifier from a
+// public key; BlindingFactor::from_slice / from_hex on slices of any length
+// ---------------------------------------------------------------------------------------------
+
+fn nonces(out: &mut Out, rng: &mut Rng, thorough: bool) {
+	use grin_keychain::extkey_bip32::BIP32GrinHasher;
+	use grin_util::secp::key::PublicKey;
+	let nseeds = if thorough { 12 } else { 4 };
+	let ncommits = if thorough { 150 } else { 50 };
+	let mut stat: std::collections::BTreeMap<String, u64> = Default::default();
+	for si in 0..nseeds {
+		let seed_len = [32usize, 16, 64, 33][si % 4];
+		let is_test = si % 2 == 0;
+		let kc = ExtKeychain::from_seed(&rng.bytes(seed_len), is_test).unwrap();
+		let secp = kc.secp();
+		let root = ExtKeychain::root_key_id();
+		let pub_root = kc.public_root_key().serialize_vec(secp, true).to_vec();
+		let priv_root = kc.derive_key(0, &root, SwitchCommitmentType::None).unwrap().0.to_vec();
+		let legacy_root = kc.derive_key(0, &root, SwitchCommitmentType::Regular).unwrap().0.to_vec();
+		let pb = ProofBuilder::new(&kc);
+		let lb = LegacyProofBuilder::new(&kc);
+		let mut hasher = BIP32GrinHasher::new(is_test);
+		let vk = ViewKey::create(&kc, kc.master.clone(), &mut hasher, is_test).unwrap();
+		// the view key's rewind hash: stored at creation, the associated function, and (by the
+		// nonce lines below) what ProofBuilder::new computed
+		out.line(&format!("keys rewindhash {}", hex(&pub_root)), &hex(&vk.rewind_hash));
+		out.line(&format!("keys rewindhash {}", hex(&pub_root)), &hex(&ViewKey::rewind_hash(secp, kc.public_root_key())));
+		for ci in 0..ncommits {
+			// the nonce is a hash of the 33 commitment BYTES: real commitments of this keychain and
+			// byte strings that are no curve points at all
+			let commit = match ci % 5 {
+				0 => Commitment::from_vec(rng.bytes(33)),
+				1 => Commitment::from_vec(vec![[0u8, 0xff, 0x08, 0x09][(ci / 5) % 4]; 33]),
+				_ => kc.commit(rand_amount(rng), &rand_id_any(rng), *rng.pick(&SWITCHES)).unwrap(),
+			};
+			let show = |r: Result<Result<SecretKey, grin_core::libtx::Error>, String>| -> String {
+				match r {
+					Ok(Ok(k)) => hex(&k.0),
+					Ok(Err(_)) => "err".to_string(),
+					Err(_) => "panic".to_string(),
+				}
+			};
+			let args = format!("{} {} {} {}", hex(&pub_root), hex(&priv_root), hex(&legacy_root), hex(&commit.0));
+			let a = show(catch(AssertUnwindSafe(|| pb.rewind_nonce(secp, &commit))));
+			let b = show(catch(AssertUnwindSafe(|| pb.private_nonce(secp, &commit))));
+			let c = show(catch(AssertUnwindSafe(|| lb.rewind_nonce(secp, &commit))));
+			let d = show(catch(AssertUnwindSafe(|| lb.private_nonce(secp, &commit))));
+			let e = show(catch(AssertUnwindSafe(|| ProofBuild::rewind_nonce(&vk, secp, &commit))));
+			out.line(&format!("keys nonce new-rewind {}", args), &a);
+			out.line(&format!("keys nonce new-private {}", args), &b);
+			out.line(&format!("keys nonce legacy-rewind {}", args), &c);
+			out.line(&format!("keys nonce legacy-private {}", args), &d);
+			out.line(&format!("keys nonce view-rewind {}", args), &e);
+			*stat.entry("commitments".to_string()).or_insert(0) += 1;
+			// what the rewind theorems rest on: the view key and the new builder share the rewind
+			// nonce; the two nonces of the new builder differ; the legacy builder has one nonce
+			if a != e {
+				out.raw(&format!("#ORACLE-FAIL C20 nonces: the root view key and the ProofBuilder of the same keychain compute different rewind nonces for commitment {} ({} vs {})", hex(&commit.0), e, a));
+			}
+			if a == b {
+				out.raw(&format!("#ORACLE-FAIL C20 nonces: ProofBuilder's rewind nonce equals its private nonce for commitment {}", hex(&commit.0)));
+			}
+			if c != d {
+				out.raw(&format!("#ORACLE-FAIL C20 nonces: LegacyProofBuilder's two nonces differ for commitment {}", hex(&commit.0)));
+			}
+		}
+		// Identifier::from_pubkey / from_secret_key: a 17-byte blake2b digest of the compressed key
+		for _ in 0..(if thorough { 60 } else { 20 }) {
+			let sk = sig_scalar(rng, secp);
+			let pk = PublicKey::from_secret_key(secp, &sk).unwrap();
+			let ser = pk.serialize_vec(secp, true).to_vec();
+			out.line(&format!("keys idpub {}", hex(&ser)), &hex(&Identifier::from_pubkey(secp, &pk).to_bytes()));
+			out.line(&format!("keys idpub {}", hex(&ser)), &Identifier::from_secret_key(secp, &sk).map(|i| hex(&i.to_bytes())).unwrap_or_else(|_| "err".to_string()));
+			*stat.entry("identifiers from public keys".to_string()).or_insert(0) += 1;
+		}
+	}
+	// proof::create / verify / rewind with EXTRA DATA committed into the range proof (the builder and
+	// reward::output always pass None): the proof verifies and rewinds with the same extra data only
+	{
+		let mut xs: std::collections::BTreeMap<String, (u64, u64)> = Default::default();
+		let kc = ExtKeychain::from_seed(&rng.bytes(32), true).unwrap();
+		let secp = kc.secp();
+		let n_x = if thorough { 40 } else { 12 };
+		for n in 0..n_x {
+			let n = n as u64;
+			let legacy = n % 3 == 2;
+			let amount = rand_amount(rng);
+			// legacy: only depth 3 / Regular comes back (recorded finding), keep to that
+			let id = if legacy { rand_id(rng, 3) } else { rand_id(rng, (n % 5) as u8) };
+			let sw = if legacy { SwitchCommitmentType::Regular } else { *rng.pick(&SWITCHES) };
+			let commit = kc.commit(amount, &id, sw).unwrap();
+			let other_commit = kc.commit(amount ^ 1, &id, sw).unwrap();
+			let e_len = [1usize, 20, 32, 64, 0, 7][(n % 6) as usize];
+			let extra = rng.bytes(e_len);
+			let mut extra2 = extra.clone();
+			if extra2.is_empty() {
+				extra2.push(0);
+			} else {
+				let l = extra2.len();
+				extra2[l - 1] ^= 1;
+			}
+			macro_rules! run {
+				($b:expr) => {{
+					let b = $b;
+					let p = proof::create(&kc, &b, amount, &id, sw, commit, Some(extra.clone())).unwrap();
+					let p_plain = proof::create(&kc, &b, amount, &id, sw, commit, None).unwrap();
+					// the commitment ARGUMENT of create is not read (it is recomputed from amount / id / switch)
+					let p_bogus = proof::create(&kc, &b, amount, &id, sw, other_commit, Some(extra.clone())).unwrap();
+					sig_line(out, &mut xs, "ok-extra-create-ignores-commit-argument", n, Ok(p_bogus.proof[..] == p.proof[..] && p_bogus.plen == p.plen));
+					sig_line(out, &mut xs, "ok-extra-verify-same", n, Ok(proof::verify(secp, commit, p, Some(extra.clone())).is_ok()));
+					sig_line(out, &mut xs, "bad-extra-verify-without", n, Ok(proof::verify(secp, commit, p, None).is_ok()));
+					sig_line(out, &mut xs, "bad-extra-verify-other", n, Ok(proof::verify(secp, commit, p, Some(extra2.clone())).is_ok()));
+					sig_line(out, &mut xs, "ok-extra-plain-verify-without", n, Ok(proof::verify(secp, commit, p_plain, None).is_ok()));
+					// an EMPTY extra-data vector: Some(vec![]) - what does the library make of it?
+					if !extra.is_empty() {
+						sig_line(out, &mut xs, "bad-extra-plain-verify-with", n, Ok(proof::verify(secp, commit, p_plain, Some(extra.clone())).is_ok()));
+					}
+					let want = Some((amount, id.clone(), sw));
+					sig_line(out, &mut xs, "ok-extra-rewind-same", n, proof::rewind(secp, &b, commit, Some(extra.clone()), p).map(|r| r == want).map_err(|e| format!("{:?}", e)));
+					sig_line(out, &mut xs, "ok-extra-plain-rewind-without", n, proof::rewind(secp, &b, commit, None, p_plain).map(|r| r == want).map_err(|e| format!("{:?}", e)));
+					if !extra.is_empty() {
+						sig_line(out, &mut xs, "bad-extra-rewind-without", n, proof::rewind(secp, &b, commit, None, p).map(|r| r.is_some()).map_err(|e| format!("{:?}", e)));
+					}
+					sig_line(out, &mut xs, "bad-extra-rewind-other", n, proof::rewind(secp, &b, commit, Some(extra2.clone()), p).map(|r| r.is_some()).map_err(|e| format!("{:?}", e)));
+				}};
+			}
+			if legacy {
+				run!(LegacyProofBuilder::new(&kc));
+			} else {
+				run!(ProofBuilder::new(&kc));
+			}
+		}
+		for (k, (cnt, bad)) in &xs {
+			out.raw(&format!("#STAT nonces extra-data {}: {} cases, {} against the rule", k, cnt, bad));
+		}
+	}
+	// Keychain::from_mnemonic (how a wallet's keychain is really made): the keychain of
+	// from_mnemonic(words, extension) IS the keychain of from_seed(to_seed(words, extension)); the
+	// words round-trip through the entropy; another extension word, a changed word or a wrong
+	// number of words never give the same keychain
+	{
+		use grin_keychain::mnemonic;
+		let mut ms: std::collections::BTreeMap<String, (u64, u64)> = Default::default();
+		let n_m = if thorough { 60 } else { 15 };
+		for n in 0..n_m {
+			let n = n as u64;
+			let elen = [16usize, 20, 24, 28, 32][(n % 5) as usize];
+			let entropy = match n {
+				0 => vec![0u8; elen],
+				1 => vec![0xffu8; elen],
+				_ => rng.bytes(elen),
+			};
+			let words = match mnemonic::from_entropy(&entropy) {
+				Ok(w) => w,
+				Err(e) => {
+					sig_line(out, &mut ms, "ok-mnemonic-roundtrip", n, Err(format!("{:?}", e)));
+					continue;
+				}
+			};
+			sig_line(out, &mut ms, "ok-mnemonic-roundtrip", n, mnemonic::to_entropy(&words).map(|e| e == entropy).map_err(|e| format!("{:?}", e)));
+			sig_line(out, &mut ms, "ok-mnemonic-word-count", n, Ok(words.split_whitespace().count() == elen * 3 / 4));
+			let ext = ["", "TREZOR", "a", "correct horse"][(n % 4) as usize];
+			let is_test = n % 2 == 0;
+			let id = rand_id_any(rng);
+			let amount = rand_amount(rng);
+			let sw = *rng.pick(&SWITCHES);
+			let via_seed = mnemonic::to_seed(&words, ext).map_err(|e| format!("{:?}", e)).and_then(|seed| ExtKeychain::from_seed(&seed, is_test).map_err(|e| format!("{:?}", e)));
+			let via_mn = ExtKeychain::from_mnemonic(&words, ext, is_test).map_err(|e| format!("{:?}", e));
+			match (via_seed, via_mn) {
+				(Ok(a), Ok(b)) => {
+					sig_line(out, &mut ms, "ok-mnemonic-keychain-is-seed-keychain", n, Ok(a.master.secret_key == b.master.secret_key && a.master.chain_code == b.master.chain_code && a.derive_key(amount, &id, sw).ok() == b.derive_key(amount, &id, sw).ok() && a.commit(amount, &id, sw).ok() == b.commit(amount, &id, sw).ok()));
+					// another extension word
+					let other = ExtKeychain::from_mnemonic(&words, &format!("{}x", ext), is_test);
+					sig_line(out, &mut ms, "bad-mnemonic-other-extension-same-master", n, Ok(other.map(|o| o.master.secret_key == b.master.secret_key).unwrap_or(false)));
+					// extra white space between the words is not part of the words, but IS part of the
+					// PBKDF2 input (to_seed hashes the string as given): recorded as an observation
+					let spaced = words.replace(' ', "  ");
+					let sp = ExtKeychain::from_mnemonic(&spaced, ext, is_test);
+					let key = format!("mnemonic with doubled spaces: {}", match &sp { Ok(k) if k.master.secret_key == b.master.secret_key => "same keychain", Ok(_) => "accepted, ANOTHER keychain", Err(_) => "refused" });
+					ms.entry(key).or_insert((0, 0)).0 += 1;
+					// one word replaced by its neighbour in the word list
+					let mut ws: Vec<String> = words.split_whitespace().map(|x| x.to_string()).collect();
+					let wi = rng.below(ws.len() as u64) as usize;
+					let idx = mnemonic::search(&ws[wi]).unwrap();
+					let repl = mnemonic::from_entropy(&{
+						// the word with index idx ^ 1, taken from the first word of a mnemonic whose
+						// first 11 bits are that index
+						let j = idx ^ 1;
+						let mut e = vec![0u8; 16];
+						e[0] = (j >> 3) as u8;
+						e[1] = ((j & 7) << 5) as u8;
+						e
+					})
+					.unwrap();
+					ws[wi] = repl.split_whitespace().next().unwrap().to_string();
+					let changed = ws.join(" ");
+					let ch = ExtKeychain::from_mnemonic(&changed, ext, is_test);
+					sig_line(out, &mut ms, "bad-mnemonic-changed-word-same-master", n, Ok(ch.map(|o| o.master.secret_key == b.master.secret_key).unwrap_or(false)));
+					// a word too few
+					let short: Vec<&str> = words.split_whitespace().skip(1).collect();
+					sig_line(out, &mut ms, "bad-mnemonic-one-word-short-accepted", n, Ok(ExtKeychain::from_mnemonic(&short.join(" "), ext, is_test).is_ok()));
+					sig_line(out, &mut ms, "bad-mnemonic-unknown-word-accepted", n, Ok(ExtKeychain::from_mnemonic(&format!("{} zzzz", short.join(" ")), ext, is_test).is_ok()));
+				}
+				(a, b) => sig_line(out, &mut ms, "ok-mnemonic-keychain-is-seed-keychain", n, Err(format!("{:?} {:?}", a.err(), b.err()))),
+			}
+		}
+		for (k, (cnt, bad)) in &ms {
+			out.raw(&format!("#STAT nonces mnemonic {}: {} cases, {} against the rule", k, cnt, bad));
+		}
+	}
+	// BlindingFactor::from_slice / from_hex / from_secret_key on 0..40 bytes
+	for len in 0..=40usize {
+		for rep in 0..(if thorough { 6 } else { 2 }) {
+			let data = if rep == 0 { vec![0xabu8; len] } else { rng.bytes(len) };
+			let h = if data.is_empty() { "-".to_string() } else { hex(&data) };
+			out.line(&format!("keys bfslice {}", h), &hex(BlindingFactor::from_slice(&data).as_ref()));
+			// (the line protocol's hex() prints `-` for the empty string; from_hex gets the real text)
+			let hs: String = data.iter().map(|b| format!("{:02x}", b)).collect();
+			let fh = BlindingFactor::from_hex(&hs).map(|b| hex(b.as_ref())).unwrap_or_else(|_| "err".to_string());
+			out.line(&format!("keys bfslice {}", h), &fh);
+			*stat.entry(format!("from_slice length {}", if len < 32 { "<32" } else if len == 32 { "=32" } else { ">32" })).or_insert(0) += 1;
+		}
+	}
+	out.raw(&format!("#STAT nonces: {:?}", stat));
 }
 
 // ---------------------------------------------------------------------------------------------
@@ -2945,6 +3360,7 @@ fn main() {
 		"hasher" => hasher(&mut out, &mut rng, thorough),
 		"sigs" => sigs(&mut out, &mut rng, thorough),
 		"exchange" => exchange(&mut out, &mut rng, thorough),
+		"nonces" => nonces(&mut out, &mut rng, thorough),
 		"malleable" => malleable(&mut out, &mut rng),
 		_ => {
 			eprintln!("unknown mode {}", mode);
